@@ -268,6 +268,11 @@ func (s *CAStore) addToMemoryCache(
 	}
 
 	data := tmpWriter.Bytes()
+	if uint64(len(data)) != size {
+		// The reservation was made for size bytes; an entry of another length
+		// would unbalance the cache accounting.
+		return fmt.Errorf("size mismatch: reserved %d bytes, got %d", size, len(data))
+	}
 	// The memory entry becomes readable under name as soon as it is added, so
 	// it must pass the same digest check as the disk path.
 	if err := s.verify(bytes.NewReader(data), name); err != nil {
